@@ -61,6 +61,7 @@ const (
 	c32Renamed
 	c32StrayTmp
 	c32RenamedInCompound // alive in a compound shard under the old name and in a simple shard under the new one
+	c32TrashFuture       // trash entry stamped 48h in the future (clock skew): documented as "reset to now", never as old
 	// thorough only
 	c32TombAndSimple
 	c32TombAndTrash
@@ -68,7 +69,7 @@ const (
 )
 
 var c32LayoutNames = [...]string{"absent", "simple", "2shards", "trash-fresh", "trash-25h", "index+trash", "compound-live",
-	"compound-tomb", "renamed", "stray-tmp", "renamed-in-compound", "compound-tomb+simple", "compound-tomb+trash"}
+	"compound-tomb", "renamed", "stray-tmp", "renamed-in-compound", "trash+48h-future", "compound-tomb+simple", "compound-tomb+trash"}
 
 func c32NeedsCompound(l int) bool {
 	switch l {
@@ -315,6 +316,8 @@ func c32Materialise(lib *c32Library, dir string, layout [3]int) map[string]time.
 			toTrash(lib.S0v1[id], c32FreshAge)
 		case c32TrashOld:
 			toTrash(lib.S0v1[id], c32OldAge)
+		case c32TrashFuture:
+			toTrash(lib.S0v1[id], -48*time.Hour)
 		case c32IndexAndTrash:
 			c32Put(dir, lib.S0v2[id], idxT)
 			toTrash(lib.S0v1[id], c32FreshAge)
@@ -650,6 +653,15 @@ func c32Check(pre, post *c32View, mask int, merging bool, now time.Time, enter m
 		assigned[id] = true
 	}
 	norm := func(id uint32, s string) string { return strings.ReplaceAll(s, c32RepoName(id), "r#") }
+	// a trash entry stamped in the future counts from this cleanup on ("reset to now")
+	enter0 := enter
+	enter = make(map[string]time.Time, len(enter0))
+	for n, t := range enter0 {
+		if t.After(now) {
+			t = now
+		}
+		enter[n] = t
+	}
 	expired := func(fs []*c32File) bool {
 		for _, f := range fs {
 			if now.Sub(enter[f.name]) > 24*time.Hour {
